@@ -94,6 +94,11 @@ size_t ZSTDMT_compressStream_generic(ZSTDMT_CCtx* mtctx,
   *  therefore flushing is limited by speed of oldest job. */
 size_t ZSTDMT_toFlushNow(ZSTDMT_CCtx* mtctx);
 
+/*! ZSTDMT_waitForAllJobsCompleted() :
+ *  Blocks until every job already posted to the workers has finished.
+ *  Required before releasing anything (dictionary, prefix) that a job of an abandoned frame may still read. */
+void ZSTDMT_waitForAllJobsCompleted(ZSTDMT_CCtx* mtctx);
+
 /*! ZSTDMT_updateCParams_whileCompressing() :
  *  Updates only a selected set of compression parameters, to remain compatible with current frame.
  *  New parameters will be applied to next compression job. */
